@@ -3,6 +3,8 @@
 // minimal disruption on adding / removing one server, clamping, membership) directly on the real
 // function, and measures — as a TEST, not a theorem — the share of a large key set every server owns.
 // The same op lines are evaluated by the Lean model (SemaModel/C13/Model.lean, h := XXH64 in Lean).
+// sites.go adds the call sites that route: the real Sync() and the real request paths on in-process
+// cluster nodes (lines sync / shsync / req / shreq).
 package main
 
 import (
@@ -15,6 +17,7 @@ import (
 	"strings"
 
 	"github.com/cespare/xxhash"
+	"github.com/rs/zerolog"
 	"github.com/semafind/semadb/cluster"
 	"verifharness/vh"
 )
@@ -121,6 +124,8 @@ func evalOp(line string) string {
 			return "panic"
 		}
 		return encName(r)
+	case len(f) > 0 && (f[0] == "sync" || f[0] == "shsync" || f[0] == "req" || f[0] == "shreq"):
+		return evalSiteOp(line, f) // real cluster nodes, see sites.go
 	}
 	return "bad-op"
 }
@@ -243,8 +248,23 @@ func eqS(a, b []string) bool {
 	return true
 }
 
+func mix64(x uint64) uint64 {
+	x ^= x >> 33
+	x *= 0xff51afd7ed558ccd
+	x ^= x >> 33
+	x *= 0xc4ceb9fe1a85ec53
+	x ^= x >> 33
+	return x
+}
+
 func main() {
+	// the cluster lines open listeners: own network namespace (or, failing that, an exclusive lock)
+	vh.IsolateNet("c13")
+	zerolog.SetGlobalLevel(zerolog.Disabled)
 	seed := flag.Uint64("seed", 1, "PRNG seed")
+	syncScen := flag.Int("syncscen", 24, "clusters whose node database records are re-distributed by the real Sync")
+	shsyncScen := flag.Int("shsyncscen", 8, "clusters whose shard directories are re-distributed by the real Sync")
+	reqScen := flag.Int("reqscen", 80, "requests issued at a real node while some servers do not answer")
 	n := flag.Int("n", 600, "random routing cases")
 	shareKeys := flag.Int("sharekeys", 20000, "keys per server-set size in the share test")
 	dir := flag.String("out", "", "output directory")
@@ -254,7 +274,9 @@ func main() {
 		doReplay(*replay)
 		return
 	}
-	rng := vh.NewRng(*seed)
+	// vh.NewRng(s) and vh.NewRng(s+1) are the same SplitMix stream one step apart; as soon as two runs have
+	// consumed a different number of values they produce the same cases. Scramble the seed first.
+	rng := vh.NewRng(mix64(*seed))
 	o := vh.NewOut(*dir)
 	emit := func(kind, op string, nontrivial bool) string {
 		ans := evalOp(op)
@@ -471,11 +493,15 @@ func main() {
 		}
 	}
 
+	// ---------------------------------------------------------------- the call sites that route (real nodes)
+	sites := genSites(rng, o, sitesCfg{*syncScen, *shsyncScen, *reqScen})
+
 	for k, v := range sizes {
 		o.Stats[k] = v
 	}
 	o.Close(map[string]any{
-		"rule":                   "distinct op lines with a non-empty input (hash of a non-empty string, routing over a non-empty server list)",
+		"call_sites":             sites,
+		"rule":                   "distinct op lines with a non-empty input (hash of a non-empty string, routing over a non-empty server list, a cluster line sync / shsync / req / shreq executed on real nodes)",
 		"routing_cases_judged":   judged,
 		"routing_cases_with_tie": skippedTies,
 		"share_test":             map[string]any{"kind": "statistical TEST (not a theorem): min / max fraction of the key set owned by one server, per server-set size", "rows": shares},
